@@ -163,12 +163,15 @@ Definition cstep (c : ccfg) (s : cst) (l : clab) : option cst :=
                     lossless := lossless s; ends := fupd (ends s) id (ends s id + (if wanted then 1 else 0)); regs := fupd (regs s) id (regs s id + (if wanted then 1 else 0));
                     errs_in := errs_in s; errs_out := errs_out s; eofs := eofs s; fin := fin s |}
           else
+            (* queue drained without meeting an ENDMARKER: register -- or, when the channel was closed meanwhile (a receiver
+               holds the ENDMARKER), deliver the endmarker at once *)
             Some {| wire := wire s;
                     cs := fupd (cs s) id {| alive := alive ch; q := None; closed := closed ch; rclosed := rclosed ch; errs := errs ch;
                                             cb := if closed ch || rclosed ch then None else Some wanted |};
                     thr := thr s; sent := sent s; got := fupd (got s) id (got s id ++ qitems lq);
-                    lossless := lossless s; ends := ends s;
-                    regs := (if closed ch || rclosed ch then regs s else fupd (regs s) id (regs s id + (if wanted then 1 else 0)));
+                    lossless := lossless s;
+                    ends := (if closed ch || rclosed ch then fupd (ends s) id (ends s id + (if wanted then 1 else 0)) else ends s);
+                    regs := fupd (regs s) id (regs s id + (if wanted then 1 else 0));
                     errs_in := errs_in s; errs_out := errs_out s; eofs := eofs s; fin := fin s |}
       end
   | LFinish =>
